@@ -436,12 +436,22 @@ class AIOKafkaConnection:
         )
 
         if not expect_response:
-            return self._writer.drain()
+            return self._drain(self._writer)
         fut = self._loop.create_future()
         self._requests.append(
             (correlation_id, request_struct, fut),
         )
         return wait_for(fut, self._request_timeout)
+
+    async def _drain(self, writer):
+        try:
+            await writer.drain()
+        except OSError as err:
+            # drain() re-raises the error the connection was lost with
+            self.close(reason=CloseReason.CONNECTION_BROKEN)
+            raise Errors.KafkaConnectionError(
+                f"Connection at {self._host}:{self._port} broken: {err}"
+            ) from err
 
     def _send_sasl_token(self, payload, expect_response=True):
         if self._writer is None:
